@@ -94,3 +94,8 @@ package quicvarint
 //@   ensures  [range] implies(result1 == nil, result0 <= 4611686018427387903)
 //@   ensures  [on-error] implies(result1 != nil, result0 == 0)
 //@   modifies nothing
+
+//@ func NewReader
+//@   props C18
+//@   ensures [non-nil] result != nil
+//@   modifies nothing
